@@ -13,6 +13,7 @@ import MinizProof.Spec.Inflate
 import MinizProof.Lemmas.Finite
 import MinizProof.Lemmas.CoreRefine
 import MinizProof.Lemmas.CoreZlib
+import MinizProof.Lemmas.CoreRingCalls
 set_option maxRecDepth 1000000
 open Fin'
 
@@ -113,6 +114,39 @@ theorem valid_zlib_stream_decodes_one_shot (r : Regs) (inp out : Array UInt8) (o
   rw [h.1, if_neg]
   intro hh
   exact hh.2 (hadl rfl)
+
+open Model.Core in
+/-- RING BUFFER. Every raw DEFLATE stream the RFC reference decoder accepts whose plaintext fits the
+    granted part of a ring buffer of `W ≥ 32768` bytes is decoded by one call of the model INTO THE RING
+    to exactly the specified bytes, `Done`, exact count — via the ring/flat theorem (`Lemmas/CoreRing`)
+    and the flat refinement above. (Streams longer than the ring: the ring is handed back to its start
+    between calls; `C07.ring_call_equals_flat_call` + `C07.ring_hand_back` + the call-composition
+    theorem cover every such schedule call by call.) -/
+theorem valid_raw_stream_decodes_in_a_ring (inp oR : Array UInt8) (budget flagsR flagsF maxDist W : Nat)
+    (res : Spec.Inflated) (hfl : FlagsRF flagsR flagsF) (hz : hasFlag flagsR fParseZlib = false)
+    (hstop : hasFlag flagsR fStopOnBlockBoundary = false)
+    (hW : oR.size = W) (hbig : 32768 ≤ W) (hgR : badGeometry flagsR oR.size 0 = false)
+    (hspec : Spec.inflateSpec #[] maxDist inp 0 = .accept res)
+    (hroom : res.out.size ≤ min budget W) :
+    (decompress {} inp oR 0 budget flagsR).status = stDone ∧
+    (decompress {} inp oR 0 budget flagsR).written = res.out.size ∧
+    (decompress {} inp oR 0 budget flagsR).consumed = (res.bitsUsed + 7) / 8 ∧
+    (∀ i, i < res.out.size → (decompress {} inp oR 0 budget flagsR).out[i]? = res.out[i]?) := by
+  have hflat := valid_raw_stream_decodes_one_shot {} inp (Array.replicate W 0) 0 (min budget (W - 0)) flagsF maxDist res rfl
+    ⟨rfl, rfl, rfl⟩ hfl.flat (by rw [hfl.zlib]; exact hz) (by rw [hfl.stop]; exact hstop) (Nat.zero_le _)
+    (by simpa using hspec) (by simp; omega)
+  obtain ⟨f1, f2, f3, f4⟩ := hflat
+  have hring := decompress_ring_flat {} inp oR (Array.replicate W 0) 0 budget flagsR flagsF W 0 Bnd_fresh hfl hW hbig hgR
+    (by simp) ⟨hW, fun i hi => absurd hi (Nat.not_lt_zero _), fun i _ hiW hb => by omega⟩
+    (by rw [Nat.zero_add, f1]; decide)
+  rw [Nat.zero_add] at hring
+  obtain ⟨r1, r2, r3, _, r5⟩ := hring
+  refine ⟨r1.trans f1, r3.trans f2, r2.trans f3, fun i hi => ?_⟩
+  have := r5.2.1 i (by rw [Nat.zero_add, r3, f2]; exact hi)
+  rw [this, Nat.zero_add]
+  have := f4 i hi
+  rw [Nat.zero_add] at this
+  exact this
 
 /-- The hypotheses are satisfiable: a fresh decoder is at `Start` with registers of the right shape,
     and the reference decoder accepts concrete stored and fixed-Huffman streams (with a trailing byte). -/
